@@ -91,7 +91,7 @@ def main():
             shutil.copy(os.path.join(VERIF, "harness", "go.sum"), wt2 + ".sum")
             for c in checks:
                 t0 = time.time()
-                rc, out = sh(f"VERIF_MODFILE={wt2}.mod python3 bin/check.py {c} --tier {tier}", cwd=VERIF, timeout=7200)
+                rc, out = sh(f"VERIF_MODFILE={wt2}.mod VERIF_EVIDENCE_DIR={wt2}.ev python3 bin/check.py {c} --tier {tier}", cwd=VERIF, timeout=7200)
                 viol = [l for l in out.splitlines() if l.startswith("VIOLATION") or "violation detail" in l]
                 res["checks"][c] = {"exit": rc, "wall_s": round(time.time() - t0, 1), "lines": viol[:4], "via": "scratch worktree + -modfile"}
         finally:
@@ -100,7 +100,7 @@ def main():
             for ext in (".mod", ".sum"):
                 if os.path.exists(wt2 + ext):
                     os.remove(wt2 + ext)
-        sh("git checkout -- evidence", cwd=VERIF)
+            shutil.rmtree(wt2 + ".ev", ignore_errors=True)
     elif ok:
         rc, out = sh("git -C /repo status --short")
         assert out.strip() == "", "/repo not clean: " + out
